@@ -232,7 +232,10 @@ func (p *gcpPicker) getLeastBusySubConnRef() (*subConnRef, error) {
 }
 
 func keysFromMessage(val reflect.Value, path []string, start int) ([]string, error) {
-	if val.Kind() == reflect.Pointer || val.Kind() == reflect.Interface {
+	// Protobuf oneofs are interfaces holding a pointer to a wrapper message: unwrap every level
+	// (bounded, a pointer can point to itself through an interface). A nil ends the loop with an
+	// invalid value, which is an error below.
+	for i := 0; i < 32 && (val.Kind() == reflect.Pointer || val.Kind() == reflect.Interface); i++ {
 		val = val.Elem()
 	}
 
